@@ -758,6 +758,25 @@ func genBlocks(r *hx.Run, rng *gen.Rng, do func(string) string) {
 		}
 		emit(kind, W, H, px, bw, bh, col, row, ww, wh)
 	}
+	// opaque images that are rescaled: every cell of the half-block rendering must show colours of source pixels
+	// (the hypothesis ScalerPicks of Props.C20Ext.resized_opaque_half, checked on the real scaler)
+	mo := 400
+	if r.Thorough {
+		mo = 6000
+	}
+	for i := 0; i < mo; i++ {
+		W, H := rng.Range(2, 7), rng.Range(2, 9)
+		px := make([][4]int, W*H)
+		for k := range px {
+			px[k] = [4]int{rng.Intn(256), rng.Intn(256), rng.Intn(256), 255}
+		}
+		bw, bh := rng.Range(1, W), rng.Range(1, ceilDiv(H, 2))
+		if bw == W && bh == ceilDiv(H, 2) {
+			bw = W - 1
+		}
+		emit("half", W, H, px, bw, bh, rng.Range(0, 4), rng.Range(0, 2), -1, -1)
+		r.Count("half-block-rescaled-opaque")
+	}
 }
 
 // ---------------------------------------------------------------------------------------------
